@@ -84,7 +84,7 @@ def run(ctx):
     thorough = ctx.tier == "thorough"
     rng = ctx.rng
     ctx.proofs()
-    reps = 3 if thorough else 1
+    reps = 4 if thorough else 1
     jobs = []
 
     def queue(name, ctype, ok, cases, meta, label, chunk):
@@ -93,7 +93,7 @@ def run(ctx):
     # ================================================================ _probvec kernels
     fcases, fmeta, qcases, qmeta = [], [], [], []
     for n in range(1, 12):
-        for mode in ["float", "dyadic", "extreme", "ties"] * reps:
+        for mode in ["float", "dyadic", "extreme", "ties"] * (3 * reps):
             r = uniforms(rng, (n,), mode)
             outs = []
             for kern in (_probvec_cpu, _probvec_parallel):
@@ -152,8 +152,25 @@ def run(ctx):
                     ctx.fail("swr_distinct", "sample is not k distinct integers in [0,n)", inp, o)
                 cases.append(tup(natlit(n), flist(r), zlist(o)))
                 meta.append(inp)
+    # exhaustive small scope: every index sequence (idx_j in [0, n-j)) for n <= 4 (quick) / 6 (thorough), all k <= n
+    for n in range(1, 7 if thorough else 5):
+        for k in range(1, n + 1):
+            for idxs in itertools.product(*[range(n - j) for j in range(k)]):
+                r = np.array([(idx + 0.5) / (n - j) for j, idx in enumerate(idxs)])
+                out = _sample_without_replacement(n, r.copy()).tolist()
+                ctx.case(("swr-exhaustive", n, idxs), nontrivial=k >= 2)
+                ctx.count("swr:exhaustive")
+                pool = list(range(n))
+                exp = []
+                for j, idx in enumerate(idxs):          # independent definition: draw position idx of the remaining pool,
+                    exp.append(pool[idx])               # move the last remaining element into the hole
+                    pool[idx] = pool[n - j - 1]
+                if out != exp or len(set(out)) != k:
+                    ctx.fail("swr_distinct", "sample differs from the pool-swap definition / not distinct", {"call": "_sample_without_replacement", "n": n, "r": r.tolist()}, out, exp)
+                cases.append(tup(natlit(n), flist(r), zlist(out)))
+                meta.append({"call": "_sample_without_replacement", "n": n, "r": r.tolist()})
     queue("swr_binary64", "nat * list float * list Z", "fun c => let '(n, r, out) := c in Zs_eqb (swr_F n r) out", cases, meta,
-          "C18.Model.swr_F vs random.utilities._sample_without_replacement", 80)
+          "C18.Model.swr_F vs random.utilities._sample_without_replacement", 150)
     for n, k, trials in [(1, 1, None), (5, 5, None), (12, 3, 4), (7, 7, 3), (9, 1, 2)]:
         x = sample_without_replacement(n, k, num_trials=trials, random_state=rng.randrange(10**6))
         ctx.case(("swr-public", n, k, trials), nontrivial=k >= 2)
@@ -306,7 +323,7 @@ def run(ctx):
     cases, meta = [], []
     for n in range(0, 8):
         ne = n * (n - 1) // 2
-        for mode in ["float", "extreme", "ties"] * reps:
+        for mode in ["float", "extreme", "ties"] * (2 * reps):
             r = uniforms(rng, (ne,), mode)
             row = np.empty(ne, dtype=int)
             col = np.empty(ne, dtype=int)
@@ -653,6 +670,24 @@ def replay(data):
             P = random_stochastic_matrix(inp["n"], inp["k"], sparse=inp["sparse"], format=inp["format"], random_state=Scripted(q))
             D = P.toarray() if inp["sparse"] else P
             print("P", D.tolist(), "positive entries per row", (D > 0).sum(axis=1).tolist(), "k", inp["k"])
+        elif call == "sgc_game":
+            from quantecon.game_theory import sgc_game, support_enumeration
+            g = sgc_game(inp["k"])
+            NE = support_enumeration(g)
+            print("number of equilibria", len(NE), "supports", [[np.nonzero(x)[0].tolist() for x in ne] for ne in NE][:4])
+        elif call in ("blotto_game", "ranking_game", "tournament_game", "unit_vector_game") and "seed" in inp:
+            import quantecon.game_theory as gt
+            args = {"blotto_game": ("h", "t", "rho", "mu"), "ranking_game": ("n", "steps"), "tournament_game": ("n", "k"),
+                    "unit_vector_game": ("n",)}[call]
+            g = getattr(gt, call)(*[inp[a] for a in args], random_state=inp["seed"])
+            print("payoff arrays", [p.payoff_array.tolist() for p in g.players])
+        elif call == "_populate_random_tournament_row_col":
+            from quantecon._graph_tools import _populate_random_tournament_row_col
+            r = np.array(inp["r"], dtype=float)
+            row = np.empty(len(r), dtype=int)
+            col = np.empty(len(r), dtype=int)
+            _populate_random_tournament_row_col(inp["n"], r, row, col)
+            print("edges", list(zip(row.tolist(), col.tolist())))
         else:
             print("no dedicated replay for", call)
     except Exception as e:
